@@ -26,6 +26,9 @@ def build(cfg, sels, seed=0):
             nm = f"{lst.lower()}{i + 1}"
             if cfg["dup"] and lst == "L" and i == 1:
                 nm = "l1"
+            own = cfg.get("own", "none")
+            if lst == "M" and ((own == "mid" and i == 0) or (own == "last" and i == n - 1)):
+                nm = "other"
             r = {"list_name": lst, "name": nm, "label": f"{lst} label {i + 1}"}
             for j, c in enumerate(xcols):
                 if _filled(cfg["fill"], i, j, n):
@@ -190,7 +193,8 @@ def build(cfg, sels, seed=0):
             seen.append(r["list_name"])
     for lst in seen:
         items = [{"name": r["name"], "label": r["label"], "extras": [[c, r[c]] for c in xcols if c in r]} for r in lists[lst]]
-        src_lists.append({"id": lst, "inline": lst in search_lists, "other": any(o["list"] == lst for o in others), "items": items})
+        has_own = any(r["name"] == "other" for r in lists[lst])
+        src_lists.append({"id": lst, "inline": lst in search_lists, "other": any(o["list"] == lst for o in others) and not has_own, "items": items})
     src = {"lists": src_lists, "selects": src_sel, "others": others, "externals": externals, "csv": src_csv}
     return {"sheets": sheets}, src
 
